@@ -77,8 +77,6 @@ def unit_dev(whole, a, e):
 def aux_dev(segment, a, e):
     if a.shape != e.shape:
         return np.inf
-    if segment:                   # the order of the two ideal endpoints is not specified
-        return float(min(proj_dev(a, e).max(), proj_dev(a, e[::-1]).max()))
     return float(proj_dev(a.reshape(-1, a.shape[-1]), e.reshape(-1, e.shape[-1])).max())
 
 
